@@ -359,4 +359,226 @@ theorem splitOn_append_sep (sep : Char) (s t : List Char) :
       | nil => exact absurd hs (splitOn_ne_nil sep cs)
       | cons x xs => simp
 
+/-! ### the classification of evidence rows (round 5: seeded C15-h) -/
+
+theorem bind_ok {ε α β} (x : Except ε α) (f : α → Except ε β) (b : β) (h : (x >>= f) = .ok b) :
+    ∃ a, x = .ok a ∧ f a = .ok b := by
+  cases x with
+  | error e => simp [bind, Except.bind] at h
+  | ok a => exact ⟨a, rfl, h⟩
+
+theorem field_ok (row : Row) (i : Nat) (x : String) (h : field row i = .ok x) : row[i]? = some x := by
+  unfold field at h
+  cases hr : row[i]? with
+  | none => rw [hr] at h; simp at h
+  | some y => rw [hr] at h; simp at h; rw [h]
+
+/-- what `psmOf` reads, cell by cell -/
+theorem psmOf_ok (c : Cols) (row : Row) (p : Psm) (h : psmOf c row = .ok p) :
+    ∃ scanF pepF, row[c.scan]? = some scanF ∧ scanOfCell scanF = .ok p.scan ∧
+      row[c.raw]? = some p.raw ∧ row[c.modSeq]? = some pepF ∧ p.modSeq = slice 1 1 pepF ∧
+      (∃ s, row[c.score]? = some s) ∧ (∃ e, row[c.pep]? = some e) := by
+  unfold psmOf at h
+  obtain ⟨scanF, h1, h⟩ := bind_ok _ _ _ h
+  obtain ⟨scan, h2, h⟩ := bind_ok _ _ _ h
+  obtain ⟨_, _, h⟩ := bind_ok _ _ _ h
+  obtain ⟨raw, h3, h⟩ := bind_ok _ _ _ h
+  obtain ⟨s, h4, h⟩ := bind_ok _ _ _ h
+  obtain ⟨e, h5, h⟩ := bind_ok _ _ _ h
+  obtain ⟨pepF, h6, h⟩ := bind_ok _ _ _ h
+  obtain ⟨_, _, h⟩ := bind_ok _ _ _ h
+  obtain ⟨_, _, h⟩ := bind_ok _ _ _ h
+  obtain ⟨_, _, h⟩ := bind_ok _ _ _ h
+  simp only [pure, Except.pure, Except.ok.injEq] at h
+  subst h
+  exact ⟨scanF, pepF, field_ok _ _ _ h1, h2, field_ok _ _ _ h3, field_ok _ _ _ h6, rfl,
+    ⟨s, field_ok _ _ _ h4⟩, ⟨e, field_ok _ _ _ h5⟩⟩
+
+theorem scanOfCell_none (f : String) (h : scanOfCell f = .ok none) :
+    f.isEmpty = true ∨ parseInt? f.toList = some (-1) := by
+  unfold scanOfCell at h
+  split at h
+  · left; assumption
+  · right
+    split at h
+    · simp at h
+    · rename_i i hi
+      simp only [Except.ok.injEq] at h
+      split at h
+      · rename_i h1; rw [hi, h1]
+      · simp at h
+
+theorem scanOfCell_some (f : String) (n : Int) (h : scanOfCell f = .ok (some n)) :
+    f.isEmpty = false ∧ parseInt? f.toList = some n ∧ n ≠ -1 := by
+  unfold scanOfCell at h
+  split at h
+  · simp at h
+  · rename_i he
+    split at h
+    · simp at h
+    · rename_i i hi
+      simp only [Except.ok.injEq] at h
+      split at h
+      · simp at h
+      · rename_i h1
+        simp at h; subst h
+        exact ⟨by simpa using he, hi, h1⟩
+
+theorem psmOf_scan_none_iff (c : Cols) (row : Row) (p : Psm) (h : psmOf c row = .ok p) :
+    p.scan = none ↔ isMbrRow c row = true := by
+  obtain ⟨scanF, pepF, h1, h2, _⟩ := psmOf_ok c row p h
+  unfold isMbrRow
+  rw [h1]
+  simp only [Bool.or_eq_true, beq_iff_eq]
+  constructor
+  · intro hn
+    rw [hn] at h2
+    exact scanOfCell_none _ h2
+  · intro hm
+    cases hs : p.scan with
+    | none => rfl
+    | some n =>
+      rw [hs] at h2
+      obtain ⟨a, b, c'⟩ := scanOfCell_some _ _ h2
+      rcases hm with hm | hm
+      · rw [a] at hm; cases hm
+      · rw [b] at hm; simp at hm; exact absurd hm c'
+
+theorem indexOf?_get (name : String) : ∀ (l : List String) (i : Nat), indexOf? name l = some i → l[i]? = some name := by
+  intro l
+  induction l with
+  | nil => intro i h; simp [indexOf?] at h
+  | cons a t ih =>
+    intro i h
+    unfold indexOf? at h
+    split at h
+    · rename_i ha; simp at h; subst h; simp [ha]
+    · cases ht : indexOf? name t with
+      | none => rw [ht] at h; simp at h
+      | some j =>
+        rw [ht] at h; simp at h; subst h
+        simpa using ih j ht
+
+theorem indexOf?_ne (a b : String) (l : List String) (i j : Nat) (hab : a ≠ b)
+    (ha : indexOf? a l = some i) (hb : indexOf? b l = some j) : i ≠ j := by
+  intro hij
+  subst hij
+  have h1 := indexOf?_get a l i ha
+  have h2 := indexOf?_get b l i hb
+  rw [h1] at h2
+  exact hab (Option.some.inj h2)
+
+theorem colIdx_ok (hdr : Row) (name : String) (i : Nat) (h : colIdx hdr name = .ok i) : indexOf? name hdr = some i := by
+  unfold colIdx at h
+  cases hi : indexOf? name hdr with
+  | none => rw [hi] at h; simp at h
+  | some j => rw [hi] at h; simp at h; rw [h]
+
+/-- the resolved columns, by name -/
+theorem cols_ok (hdr : Row) (c : Cols) (h : cols hdr = .ok c) :
+    indexOf? "score" hdr = some c.score ∧ indexOf? "pep" hdr = some c.pep ∧ indexOf? "raw file" hdr = some c.raw ∧
+    (indexOf? "ms/ms scan number" hdr = some c.scan ∨ indexOf? "scan number" hdr = some c.scan) ∧
+    indexOf? "modified sequence" hdr = some c.modSeq ∧ indexOf? "type" hdr = some c.idType ∧
+    indexOf? "reverse" hdr = some c.reverse ∧ indexOf? "potential contaminant" hdr = some c.contaminant ∧
+    c.labeling = indexOf? "labeling state" hdr := by
+  unfold cols at h
+  obtain ⟨score, h1, h⟩ := bind_ok _ _ _ h
+  obtain ⟨pep, h2, h⟩ := bind_ok _ _ _ h
+  obtain ⟨raw, h3, h⟩ := bind_ok _ _ _ h
+  cases hm : indexOf? "ms/ms scan number" hdr with
+  | some i =>
+    simp only [hm] at h
+    obtain ⟨scan, h4, h⟩ := bind_ok _ _ _ h
+    obtain ⟨modSeq, h5, h⟩ := bind_ok _ _ _ h
+    obtain ⟨idType, h6, h⟩ := bind_ok _ _ _ h
+    obtain ⟨reverse, h7, h⟩ := bind_ok _ _ _ h
+    obtain ⟨contaminant, h8, h⟩ := bind_ok _ _ _ h
+    simp only [pure, Except.pure, Except.ok.injEq] at h h4
+    subst h; subst h4
+    exact ⟨colIdx_ok _ _ _ h1, colIdx_ok _ _ _ h2, colIdx_ok _ _ _ h3, Or.inl rfl, colIdx_ok _ _ _ h5, colIdx_ok _ _ _ h6,
+      colIdx_ok _ _ _ h7, colIdx_ok _ _ _ h8, rfl⟩
+  | none =>
+    simp only [hm] at h
+    obtain ⟨scan, h4, h⟩ := bind_ok _ _ _ h
+    obtain ⟨modSeq, h5, h⟩ := bind_ok _ _ _ h
+    obtain ⟨idType, h6, h⟩ := bind_ok _ _ _ h
+    obtain ⟨reverse, h7, h⟩ := bind_ok _ _ _ h
+    obtain ⟨contaminant, h8, h⟩ := bind_ok _ _ _ h
+    simp only [pure, Except.pure, Except.ok.injEq] at h
+    subst h
+    exact ⟨colIdx_ok _ _ _ h1, colIdx_ok _ _ _ h2, colIdx_ok _ _ _ h3, Or.inr (colIdx_ok _ _ _ h4), colIdx_ok _ _ _ h5,
+      colIdx_ok _ _ _ h6, colIdx_ok _ _ _ h7, colIdx_ok _ _ _ h8, rfl⟩
+
+/-- the `Type` column is none of the columns the matching reads -/
+theorem cols_type_distinct (hdr : Row) (c : Cols) (h : cols hdr = .ok c) :
+    c.idType ≠ c.score ∧ c.idType ≠ c.pep ∧ c.idType ≠ c.raw ∧ c.idType ≠ c.scan ∧ c.idType ≠ c.modSeq ∧
+    c.idType ≠ c.reverse ∧ c.idType ≠ c.contaminant ∧ c.labeling ≠ some c.idType := by
+  obtain ⟨h1, h2, h3, h4, h5, h6, h7, h8, h9⟩ := cols_ok hdr c h
+  refine ⟨indexOf?_ne _ _ hdr _ _ (by decide) h6 h1, indexOf?_ne _ _ hdr _ _ (by decide) h6 h2,
+    indexOf?_ne _ _ hdr _ _ (by decide) h6 h3, ?_, indexOf?_ne _ _ hdr _ _ (by decide) h6 h5,
+    indexOf?_ne _ _ hdr _ _ (by decide) h6 h7, indexOf?_ne _ _ hdr _ _ (by decide) h6 h8, ?_⟩
+  · rcases h4 with h4 | h4
+    · exact indexOf?_ne _ _ hdr _ _ (by decide) h6 h4
+    · exact indexOf?_ne _ _ hdr _ _ (by decide) h6 h4
+  · rw [h9]; intro hl
+    exact indexOf?_ne _ _ hdr _ _ (by decide) h6 hl rfl
+
+theorem field_set_ne (row : Row) (i j : Nat) (t : String) (h : i ≠ j) : field (row.set i t) j = field row j := by
+  unfold field
+  rw [List.getElem?_set_ne h]
+
+theorem field_set_self_bind {β} (row : Row) (i : Nat) (t : String) (k : Except String β) :
+    (field (row.set i t) i >>= fun _ => k) = (field row i >>= fun _ => k) := by
+  unfold field
+  by_cases hi : i < row.length
+  · rw [List.getElem?_set_self (by simpa using hi)]
+    have : row[i]? = some row[i] := List.getElem?_eq_getElem hi
+    rw [this]; rfl
+  · have h1 : row[i]? = none := by simp; omega
+    have h2 : (row.set i t)[i]? = none := by simp; omega
+    rw [h1, h2]
+
+theorem checkLabeling_set (c : Cols) (row : Row) (i : Nat) (t : String) (h : c.labeling ≠ some i) :
+    checkLabeling c (row.set i t) = checkLabeling c row := by
+  unfold checkLabeling
+  cases hl : c.labeling with
+  | none => rfl
+  | some l =>
+    have : i ≠ l := by intro e; subst e; exact h hl
+    simp only [List.getElem?_set_ne this]
+
+/-- the classification and the lookup key of a row do not depend on its `Type` cell -/
+theorem psmOf_set_type (hdr : Row) (c : Cols) (hc : cols hdr = .ok c) (row : Row) (t : String) :
+    psmOf c (row.set c.idType t) = psmOf c row := by
+  obtain ⟨d1, d2, d3, d4, d5, d6, d7, d8⟩ := cols_type_distinct hdr c hc
+  unfold psmOf
+  rw [field_set_ne _ _ _ _ d4, checkLabeling_set _ _ _ _ d8, field_set_ne _ _ _ _ d3, field_set_ne _ _ _ _ d1,
+    field_set_ne _ _ _ _ d2, field_set_ne _ _ _ _ d5, field_set_ne _ _ _ _ d6, field_set_ne _ _ _ _ d7]
+  congr 1; funext scanF
+  congr 1; funext scan
+  congr 1; funext _
+  congr 1; funext raw
+  congr 1; funext _
+  congr 1; funext _
+  congr 1; funext pepF
+  congr 1; funext _
+  congr 1; funext _
+  exact field_set_self_bind row c.idType t _
+
+theorem rule_set_other (res : Results) (sc pc i : Nat) (t : String) (row : Row) (p : Psm) (h1 : i ≠ sc) (h2 : i ≠ pc) :
+    rule res sc pc (row.set i t) p = (rule res sc pc row p).map (fun r => r.set i t) := by
+  unfold rule
+  split
+  · rfl
+  · split
+    · rfl
+    · split
+      · rfl
+      · split
+        · rfl
+        · split
+          · rfl
+          · simp only [Option.map_some]
+            rw [List.set_comm t _ h1, List.set_comm t _ h2]
+
 end PgFdr.C15
